@@ -108,6 +108,8 @@ type unit struct {
 	extern         map[string][]externOp
 	externKind     map[string]string // callee -> "read" | "write"
 	errcodes       map[string]int    // sentinel errors (printed form, e.g. io.EOF or ErrTooManySegments) -> code ≥ 2
+	ignore         []string            // -ignore: callees whose calls (statements) have no influence on results (monitoring)
+	step           map[string][]opq    // -step fn:callee=name: value-returning method that also changes its abstract receiver
 	abs            map[string]string   // -abs pkgpath.Type -> Lean type variable
 	mutate         map[string][]opq    // function -> calls X.m(args) that update the abstract object X
 	records        map[string][]string // -record pkg.Type -> field paths
@@ -132,6 +134,7 @@ type tr struct {
 	u     *unit
 	errs  []string
 	f     *fctx
+	postOf  map[*ast.ForStmt]ast.Stmt // post statements of general for loops rewritten as while loops
 	pending []string    // definitions of helpers translated on demand, emitted before the function that needed them
 	nameMap [][2]string // legacy (Go-named) definition name -> canonical name, written with -namemap
 }
@@ -166,12 +169,13 @@ func init() {
 // patternsOf: all callee patterns the flags give for a function
 func (u *unit) patternsOf(fn string) []string {
 	var r []string
-	for _, l := range [][]opq{u.opaque[fn], u.block[fn], u.apply[fn], u.fill[fn], u.ctor[fn], u.inout[fn], u.mutate[fn]} {
+	for _, l := range [][]opq{u.opaque[fn], u.block[fn], u.apply[fn], u.fill[fn], u.ctor[fn], u.inout[fn], u.mutate[fn], u.step[fn]} {
 		for _, o := range l {
 			r = append(r, o.callee)
 		}
 	}
 	r = append(r, u.abstract[fn]...)
+	r = append(r, u.ignore...)
 	for _, e := range u.extern[fn] {
 		r = append(r, e.callee)
 	}
@@ -219,7 +223,7 @@ func die(f string, a ...any) {
 
 func main() {
 	args := os.Args[1:]
-	t := &tr{fset: token.NewFileSet()}
+	t := &tr{fset: token.NewFileSet(), postOf: map[*ast.ForStmt]ast.Stmt{}}
 	out, mapOut := "", ""
 	var cur *unit
 	need := func(i int) string {
@@ -245,7 +249,7 @@ func main() {
 			cur = &unit{dir: v, opaque: map[string][]opq{}, block: map[string][]opq{}, abstract: map[string][]string{},
 				apply: map[string][]opq{}, fill: map[string][]opq{}, ctor: map[string][]opq{}, repr: map[string]kind{}, inout: map[string][]opq{},
 				emitted: map[string]bool{}, procs: map[string]int{}, sigs: map[string]*fsig{}, inProgress: map[string]bool{}, failedHelper: map[string]bool{},
-				abs: map[string]string{}, mutate: map[string][]opq{}, records: map[string][]string{}, stateful: map[string]bool{}, extern: map[string][]externOp{}, externKind: map[string]string{}, errcodes: map[string]int{}}
+				step: map[string][]opq{}, abs: map[string]string{}, mutate: map[string][]opq{}, records: map[string][]string{}, stateful: map[string]bool{}, extern: map[string][]externOp{}, externKind: map[string]string{}, errcodes: map[string]int{}}
 			cur.sub = strings.Title(filepath.Base(v))
 			t.units = append(t.units, cur)
 		case "-sub":
@@ -287,6 +291,15 @@ func main() {
 				die("bad -repr %q", v)
 			}
 			cur.repr[ty] = kk
+		case "-ignore": // callee,callee…  (unit level)
+			cur.ignore = append(cur.ignore, splitList(v)...)
+		case "-step": // fn:callee=name
+			fn, rest, ok := strings.Cut(v, ":")
+			callee, name, ok2 := strings.Cut(rest, "=")
+			if !ok || !ok2 {
+				die("bad -step %q", v)
+			}
+			cur.step[fn] = append(cur.step[fn], opq{callee, name})
 		case "-abs": // pkgpath.Type=S_name
 			ty, nm, ok := strings.Cut(v, "=")
 			if !ok {
